@@ -185,6 +185,7 @@ def check_property(reg, repo, args, t0):
     inlined = set()
     funcs = []
     disagreements = []
+    cross_counts = {}
     for r in recs:
         funcs.append({"function": r["function"], "ast_hash": r.get("ast_hash"), "obligations": len(r["obligations"]),
                       "status": r["status"], "paths": r.get("paths", 0)})
@@ -210,6 +211,9 @@ def check_property(reg, repo, args, t0):
             if len(samples) < 6 and o["kind"] not in ("frame",):
                 samples.append({"obligation": o["name"], "clause": o["clause"][:160], "path": o["path"][:200],
                                 "verdict": o["verdict"], "backend": o.get("backend"), "time_s": o.get("time")})
+            if o.get("cross"):
+                ck = "%s:%s" % (o["cross"].get("backend"), o["cross"].get("verdict"))
+                cross_counts[ck] = cross_counts.get(ck, 0) + 1
             if o.get("cross") and o["cross"]["verdict"] == "sat" and o["verdict"] == "discharged":
                 disagreements.append(o["name"])
             if o["verdict"] == "discharged":
@@ -266,12 +270,19 @@ def check_property(reg, repo, args, t0):
     evidence = {
         "property_id": prop, "tier": tier, "seed": seed, "level": "proof",
         "coverage": {
-            "obligations": n_obl, "discharged": n_dis + n_known if False else n_dis,
+            # obligations that have to hold for the claim (the ones listed as open known findings are counted apart:
+            # they are generated and checked on every run, are expected NOT to discharge, and are printed as KNOWN-FINDING)
+            "obligations": n_obl - n_known, "discharged": n_dis,
+            "obligations_generated": n_obl,
             "known_findings": n_known,
+            "known_finding_lines": sorted(set(known_lines)),
             "checker_cmd": "./check %s --tier %s" % (prop, tier),
             "trusted_base": TRUSTED_BASE,
             "functions_under_contract": funcs,
             "by_backend": by_backend, "solver_time_s": round(solver_time, 3),
+            # thorough tier: independent second answer (cvc5 1.0.3, then z3 4.8.12) on a portable SMT-LIB dump of each
+            # discharged obligation; "cli:unknown" = neither answered within its budget or the dump was too large
+            "cross_check": cross_counts,
             "paths_enumerated": paths, "paths_infeasible": infeasible,
             "inlined_uncontracted_callees": sorted(inlined),
             "samples": samples,
